@@ -58,3 +58,29 @@ Theorem C03_k4_refuted : exists (v : val) (j : json),
   forall (jparse : string -> option json) (s : string), jparse s = Some j -> p_parse_ident jparse s = None.
 Proof. exact k4_refuted. Qed.
 Print Assumptions C03_k4_refuted.
+
+(* ... and when the probe DOES read the payload and what it reads names no kind with a loader of its own, no
+   retired kind and no newer version, generic claims go through Decode like the typed kinds: accepted as generic
+   claims, verified over header.payload (the header Encode writes carries the new algorithm name) under the stamped
+   issuer, loaded canon-equal.  The three probe conditions are hypotheses here - they are exactly what K4 is about. *)
+Theorem C03_generic_encode_decode : forall (jparse : string -> option json) (jprint : json -> string)
+    (H : string -> string) (sign : string -> string) (verify : string -> string -> string -> bool)
+    (role_of : string -> role) (issuer : string) (now : Z) (v v' : val) (tok : string) (j : json) (i : ident),
+  (forall x, jparse (jprint x) = Some x) ->
+  (forall text, verify issuer text (sign text) = true) ->
+  has_type sch_generic v' = true ->
+  encode H jprint sign KGeneric true issuer now v = Some (v', tok) ->
+  enc sch_generic v' = Some j ->
+  getp sch_generic ["iss"] v' = Some (VStr issuer) -> issuer <> "" ->
+  p_parse_ident jparse (jprint j) = Some i ->
+  (lib_version <? id_version i) = false ->
+  (forall k, k <> KGeneric -> id_kind i <> kind_name k) -> id_kind i <> "cluster" -> id_kind i <> "server" ->
+  exists a d,
+    p_decode jparse verify role_of tok = Some a /\
+    a_kind a = KGeneric /\ a_iss a = issuer /\ a_layout a = LV2 /\
+    p_loaded jparse (jprint j) KGeneric 2 = Some d /\ canon d = canon v'.
+Proof.
+  intros jparse jprint H sign verify role_of issuer now v v' tok j i Hjp.
+  exact (generic_encode_decode jparse jprint Hjp H sign verify role_of issuer now v v' tok j i).
+Qed.
+Print Assumptions C03_generic_encode_decode.
